@@ -925,3 +925,84 @@ class lb_keypress:
     def on_raise(old, s, a, exc):
         was = walker_focus(old, "entry")
         yield "not-for-an-empty-list", neg(mk_bool(was[0].isnone))
+
+
+# ------------------------------------------------------------------------------------------------ ends_visible
+
+ENDS = ListOf(Atom("top", "bottom"))
+
+
+def _ev_loop_below(v):
+    vis = Vis()
+    i = v.i_
+    last = Q.seq_get(vis.below, imax(i - 1, 0))
+    yield "offset-below-the-items-passed", v.row_offset == vis.off + vis.frows + vis.B(i)
+    yield "position-of-the-last-item-passed", v.pos == ite(i >= 1, last[1], vis.fpos)
+
+
+def _ev_loop_above(v):
+    vis = Vis()
+    i = v.i_
+    last = Q.seq_get(vis.above, imax(i - 1, 0))
+    yield "position-of-the-last-item-passed", v.pos == ite(i >= 1, last[1], vis.fpos)
+
+
+@contract(LBX + "ListBox.ends_visible", property="C07", replayable=False)
+class lb_ends_visible:
+    """'top' is reported exactly when nothing is cut off at the top edge and the walker has nothing above the topmost listed
+    item; 'bottom' exactly when nothing is cut off at the bottom edge and rows of the box are left blank or the walker has
+    nothing below the bottommost listed item -- in which case it has nothing with rows below the last item walked ("blank
+    rows appear below the last item only when everything above it is already shown" is calculate_visible's clause).  The
+    answer is [], ['top'], ['bottom'] or ['top', 'bottom'], in this order; nothing is written."""
+
+    self_shape = LB
+    params = dict(size=Tup(Int, Int), focus=Bool)
+    result = ENDS
+    raises = ()
+    modifies = ()
+    loops = {0: Loop(invariant=_ev_loop_below, shapes={"pos": Int, "rows": Dim}), 1: Loop(invariant=_ev_loop_above, shapes={"pos": Int, "rows": Dim})}
+
+    requires = staticmethod(lambda s, a: both(no_change_pending(s), nonempty(s), size_ok(a.size), lb_ok(s)))
+
+    def ensures(old, s, a, result):
+        vis = Vis()
+        ch = vis.ch
+        maxrow = a.size[1]
+        ch.unfold(UP, vis.kt)
+        ch.unfold(DOWN, vis.kl)
+        ch.mono(DOWN, vis.kl + 1, vis.kb + 1)
+        ch.mono(UP, vis.kt + 1, vis.ka + 1)
+        r = result.seq if isinstance(result, Q.LRef) else result
+        n = Q.seq_len(r)
+        if not isinstance(n, int):
+            raise Unsupported("ends_visible: result list of symbolic length")
+        items = [Q.seq_get(r, j) for j in range(n)]
+        has = lambda name: either(False, *[x == name for x in items])  # noqa: E731
+        shown = vis.off + vis.frows + vis.B(vis.nb) - vis.tb
+        top = both(vis.tt == 0, neg(ch.ok(UP, vis.kt + 1)))
+        bottom = both(vis.tb == 0, either(shown < maxrow, neg(ch.ok(DOWN, vis.kl + 1))))
+        yield "at-most-top-then-bottom", n <= 1 or (n == 2 and both(items[0] == "top", items[1] == "bottom"))
+        yield "top-iff-nothing-cut-off-and-nothing-above-the-topmost-listed-item", eq(has("top"), top)
+        yield "bottom-iff-nothing-cut-off-and-blank-rows-or-nothing-below-the-bottommost-listed-item", eq(has("bottom"), bottom)
+        yield "top-only-when-the-walker-has-nothing-above-the-items-walked", implies(has("top"), both(vis.tt == 0, neg(ch.ok(UP, vis.ka + 1))))
+        yield "bottom-only-when-the-walker-has-nothing-below-the-items-walked", implies(has("bottom"), both(vis.tb == 0, neg(ch.ok(DOWN, vis.kb + 1))))
+        yield "moves-no-focus", walker_focus(s, "exit")[1] == walker_focus(old, "entry")[1]
+
+    static_checks = [_writes_within(LBX + "ListBox.ends_visible", (), ("calculate_visible",))]
+
+
+@contract(LBX + "ListBox.ends_visible", property="C07", replayable=False, alias="empty", contract_overrides={_CV: lb_calculate_visible_empty})
+class lb_ends_visible_empty:
+    """An empty list shows both its ends."""
+
+    self_shape = LB
+    params = dict(size=Tup(Int, Int), focus=Bool)
+    raises = ()
+    modifies = ()
+
+    def requires(s, a):
+        return both(no_change_pending(s), is_empty(s))
+
+    def ensures(old, s, a, result):
+        r = result.seq if isinstance(result, Q.LRef) else result
+        yield "top-and-bottom", both(Q.seq_len(r) == 2, Q.seq_get(r, 0) == "top", Q.seq_get(r, 1) == "bottom")
